@@ -1,7 +1,7 @@
 /- Driver for C14: runs the history models of Model/Histories.lean (which interpret the
    generated micro-op lists / loop conditions) on lines from stdin.
 
-   hist <tempo|mft> <start> <dt> <faults: i,jb,..|-> <ref target> <targets...>
+   hist <tempo|mft> <dkmax: int|none> <start> <dt> <faults: i,jb,..|-> <ref target> <targets...>
         (`jb`: invocation j raises a BaseException that is not an Exception)
         -> ok flags ; step ; calls ; trace ; times ; same-as-single-call(ref)
    pt <n> <ops: string of c/g>      -> outputs ; step ; net ; ptLen
@@ -50,12 +50,12 @@ def showPtOut : PtOut → String
   | .raised => "raised"
   | .pt c => "pt:" ++ ",".intercalate (c.map toString)
 
-def histLine (api : String) (s dt : Rat) (faults : List (Nat × Bool)) (ref : Rat) (es : List Rat) : String :=
+def histLine (api : String) (dkmax : Option Int) (s dt : Rat) (faults : List (Nat × Bool)) (ref : Rat) (es : List Rat) : String :=
   let faulty : Oracle := ⟨fun n => faults.any (fun f => f.1 == n),
                           fun n => faults.any (fun f => f.1 == n && f.2)⟩
   let (numStep, time, init, ops) :=
-    if api == "tempo" then (tempo_num_step s dt, tempo_time s dt, tempo_init_step, tempo_compute_step)
-    else (mft_num_step s dt, mft_time s dt, mft_init_step, mft_compute_step)
+    if api == "tempo" then (tempo_num_step s dt, tempo_time s dt, tempo_init_step, tempoOpsAt dkmax)
+    else (mft_num_step s dt, mft_time s dt, mft_init_step, mftOpsAt dkmax)
   let stepf := fun (acc : Obj × List Bool) (e : Rat) =>
     let r := compute numStep time init ops faulty acc.1 e
     (r.1, acc.2 ++ [r.2])
@@ -85,11 +85,12 @@ def mkCfg (start : Int) (pre post : List Int) (initial : List ChainEv) : TebdCfg
 
 def step (line : String) : String :=
   match words line with
-  | "hist" :: api :: s :: dt :: faults :: ref :: es =>
-    match parseRat? s, parseRat? dt, faultList faults, parseRat? ref, rats es with
-    | some s, some dt, some f, some ref, some es =>
-      if api == "tempo" || api == "mft" then histLine api s dt f ref es else "bad-op"
-    | _, _, _, _, _ => "bad-op"
+  | "hist" :: api :: dk :: s :: dt :: faults :: ref :: es =>
+    let dkmax : Option (Option Int) := if dk == "none" then some none else (parseInt? dk).map some
+    match dkmax, parseRat? s, parseRat? dt, faultList faults, parseRat? ref, rats es with
+    | some dkmax, some s, some dt, some f, some ref, some es =>
+      if api == "tempo" || api == "mft" then histLine api dkmax s dt f ref es else "bad-op"
+    | _, _, _, _, _, _ => "bad-op"
   | ["pt", n, ops] =>
     match parseInt? n with
     | some n => (ptLine n ops).getD "bad-op"
